@@ -101,6 +101,7 @@ enum WCmd {
 }
 
 struct EpH {
+    dead: Arc<std::sync::atomic::AtomicBool>,
     sock_addr: String,
     conn_task: Option<JoinHandle<()>>,
     conn_kind: &'static str,
@@ -491,6 +492,8 @@ impl World {
         let seed = self.seed;
         let kind: &'static str = if to.is_some() { "connect" } else { "accept" };
         shared.inc(kind);
+        let dead = Arc::new(std::sync::atomic::AtomicBool::new(false));
+        let dead2 = dead.clone();
         let (ar, aw) = (abort_r.clone(), abort_w.clone());
         let tracer = self.tracer.clone();
         let epn: Arc<str> = ep.into();
@@ -516,6 +519,7 @@ impl World {
                     start_workers(stream, to.is_none(), local, ctx.clone(), rd_rx, wr_rx, ar, aw, seed);
                 }
                 Err(e) => {
+                    dead2.store(true, std::sync::atomic::Ordering::SeqCst);
                     ev!(tracer, "ret", "ep": &*epn, "op": kind, "res": "err", "err": e.to_string(),
                         "local": local.to_string());
                 }
@@ -525,6 +529,7 @@ impl World {
         self.eps.insert(
             ep.to_string(),
             EpH {
+                dead,
                 sock_addr: local.to_string(),
                 conn_task: Some(task),
                 conn_kind: kind,
@@ -572,6 +577,25 @@ impl World {
     }
 
     pub async fn step(&mut self, st: &Step) {
+        // operations on an endpoint whose connect/accept failed or was abandoned cannot run
+        let target: Option<(&String, &'static str)> = match st {
+            Step::Write { ep, .. } => Some((ep, "write")),
+            Step::Read { ep, .. } => Some((ep, "read")),
+            Step::Flush { ep } => Some((ep, "flush")),
+            Step::Shutdown { ep } => Some((ep, "shutdown")),
+            Step::DropR { ep } => Some((ep, "drop_r")),
+            Step::DropW { ep } => Some((ep, "drop_w")),
+            Step::Drop { ep } => Some((ep, "drop")),
+            _ => None,
+        };
+        if let Some((ep, op)) = target {
+            if let Some(e) = self.eps.get(ep) {
+                if e.dead.load(std::sync::atomic::Ordering::SeqCst) {
+                    ev!(self.tracer, "ret", "ep": ep, "op": op, "res": "noconn", "n": 0);
+                    return;
+                }
+            }
+        }
         match st {
             Step::Connect { sock, to, ep } => {
                 let t = self.addr_of(to);
@@ -581,47 +605,63 @@ impl World {
             Step::Write { ep, n, chunk } => {
                 let e = self.ep(ep);
                 e.shared.inc("write");
-                let _ = e.wr_tx.send(WCmd::Write {
+                if e.wr_tx.send(WCmd::Write {
                     n: *n,
                     chunk: chunk.unwrap_or(65536),
-                });
+                }).is_err() {
+                    e.shared.dec("write");
+                }
             }
             Step::Read { ep, n, chunk } => {
                 let e = self.ep(ep);
                 e.shared.inc("read");
-                let _ = e.rd_tx.send(RCmd::Read {
+                if e.rd_tx.send(RCmd::Read {
                     n: *n,
                     chunk: chunk.unwrap_or(65536),
-                });
+                }).is_err() {
+                    e.shared.dec("read");
+                }
             }
             Step::Flush { ep } => {
                 let e = self.ep(ep);
                 e.shared.inc("flush");
-                let _ = e.wr_tx.send(WCmd::Flush);
+                if e.wr_tx.send(WCmd::Flush).is_err() {
+                    e.shared.dec("flush");
+                }
             }
             Step::Shutdown { ep } => {
                 let e = self.ep(ep);
                 e.shared.inc("shutdown");
-                let _ = e.wr_tx.send(WCmd::Shutdown);
+                if e.wr_tx.send(WCmd::Shutdown).is_err() {
+                    e.shared.dec("shutdown");
+                }
             }
             Step::DropR { ep } => {
                 let e = self.ep(ep);
                 e.shared.inc("drop_r");
-                let _ = e.rd_tx.send(RCmd::Drop);
+                if e.rd_tx.send(RCmd::Drop).is_err() {
+                    e.shared.dec("drop_r");
+                }
                 e.abort_r.notify_one();
             }
             Step::DropW { ep } => {
                 let e = self.ep(ep);
                 e.shared.inc("drop_w");
-                let _ = e.wr_tx.send(WCmd::Drop);
+                if e.wr_tx.send(WCmd::Drop).is_err() {
+                    e.shared.dec("drop_w");
+                }
                 e.abort_w.notify_one();
             }
             Step::Drop { ep } => {
                 let e = self.ep(ep);
                 e.shared.inc("drop_r");
                 e.shared.inc("drop_w");
-                let _ = e.rd_tx.send(RCmd::Drop);
-                let _ = e.wr_tx.send(WCmd::Drop);
+                if e.rd_tx.send(RCmd::Drop).is_err() {
+                    e.shared.dec("drop_r");
+                }
+                if e.wr_tx.send(WCmd::Drop).is_err() {
+                    e.shared.dec("drop_w");
+                }
                 e.abort_r.notify_one();
                 e.abort_w.notify_one();
             }
@@ -629,6 +669,7 @@ impl World {
                 let e = self.eps.get_mut(ep).expect("unknown ep");
                 if let Some(t) = e.conn_task.take() {
                     if !t.is_finished() {
+                        e.dead.store(true, std::sync::atomic::Ordering::SeqCst);
                         t.abort();
                         ev!(self.tracer, "ret", "ep": ep, "op": e.conn_kind, "res": "abandoned", "sock": e.sock_addr.clone());
                         e.shared.dec(e.conn_kind);
